@@ -46,8 +46,8 @@ ASSUMPTIONS = [
     "not judged); exceptions raised by the code under test are rejections",
 ]
 TIERS = {
-    "quick": {"shards": 16, "cases": 620, "timeout": 600},
-    "thorough": {"shards": 16, "cases": 18600, "timeout": 7200},
+    "quick": {"shards": 16, "cases": 1100, "timeout": 600},
+    "thorough": {"shards": 16, "cases": 33000, "timeout": 7200},
 }
 FLOORS = {
     "quick": {
